@@ -7,7 +7,7 @@ import sys, glob, importlib
 sys.path.insert(0, os.path.join(V, "lib")); sys.path.insert(0, os.path.join(V, "props"))
 # every props/cNN.py that defines CLAIM = dict(cat=, design=, text=, note=, technique=) is a claimed check
 # only checks the coordinator has reviewed, run on the unchanged tree and mutation-tested are registered
-ACCEPTED = ["C02", "C03", "C05", "C06", "C12", "C14", "C16", "C17", "C19", "C20"]
+ACCEPTED = ["C02", "C03", "C05", "C06", "C12", "C14", "C16", "C17", "C18", "C19", "C20"]
 CLAIMED = {}
 for f in sorted(glob.glob(os.path.join(V, "props", "c[0-9][0-9].py"))):
     mod = importlib.import_module(os.path.basename(f)[:-3])
